@@ -11,7 +11,7 @@ from .fingerprint import fingerprint
 from .core import (RS, SymReal, Ctx, R, lift, _assume, _is_zero, _is_one,
                    PI, SQRT2, SQRTPI, SQRT3, LOG2PI, LOG2, LOGPI, E1)
 
-UF = {n: z3.Function(n, RS, RS) for n in ["exp", "log", "sqrt", "erf", "erfcx", "tanh", "cos", "sin"]}
+UF = {n: z3.Function(n, RS, RS) for n in ["exp", "log", "sqrt", "erf", "erfcx", "tanh", "cos", "sin", "abs"]}
 
 
 def is_uf(e, name=None):
@@ -246,6 +246,18 @@ def _neg_leading(e):
         return fp < 0
     lt = linear_terms(e)
     return bool(lt) and lt[0][0] < 0
+
+
+def abs_term(e):
+    e = z3.simplify(e)
+    if z3.is_rational_value(e):
+        return rv(abs(frac_of(e)))
+    if is_uf(e, "abs") or is_uf(e, "exp") or is_uf(e, "sqrt"):
+        return e
+    fp = fingerprint(e)
+    if fp is not None and fp < 0:
+        e = z3.simplify(-e)
+    return UF["abs"](e)
 
 
 def erf_term(e):
